@@ -192,3 +192,7 @@ def run(ctx):
     # "every non-automatic unfinished task has an eligible worker" is C04's notion of eligible: the allocator must test exactly that
     from .C04 import r4_1
     r4_1(ctx)
+    # ... and that worker is offered to the task: the allocator looks at every READY and WORKING task, whatever else is true of it
+    # (a READY task that is filtered out never starts, so the project runs into max_time)
+    from .C06 import r6_2
+    r6_2(ctx)
